@@ -115,7 +115,7 @@ theorem sound_exec {s : Simp} (hs : SimpSound s) (o : Oracle) (cfg : Cfg) (env :
   exact ⟨n, w', hn, hW⟩
 
 /-- the initial state of `run` -/
-example : initState = ⟨0, [], [], [], [], [], [], [], [], [], 0⟩ := rfl
+example : initState = ⟨0, [], [], [], [], [], [], [], []⟩ := rfl
 
 /-! ### non-vacuity: a branching program, a concrete oracle, an instance of `R` -/
 
@@ -356,6 +356,36 @@ example : (run foldSimp exOracle {} exEnv
     CALL in a static frame succeeds in the code (`TODO: revert if context is static`); the model stops there. Tagged ends (no claim):
     see `Tag` — among them `errKind` (LOG in a static frame with too few operands: the code reports
     WriteInStaticContext, the EVM a stack underflow). -/
+theorem sound_calls_gen {s : Simp} (hs : SimpSound s) (o : Oracle) (cfg : Cfg) (env : Env)
+    (codes : List (Nat × List Nat)) (this : Nat) (fuel : Nat) (p : Evm.Params) (w : Evm.World)
+    (S : Nat → Prop) (hS0 : S this) (hSc : ∀ a prog, codeOf codes a = some prog → S a)
+    (hmem : cfg.maxMem + 32 ≤ p.memLimit) (hdep : 1024 ≤ p.maxDepth)
+    (hcodes : ∀ a, w.codeOf a = codeOf codes a)
+    (hcb : ∀ a prog, codeOf codes a = some prog → ∀ b ∈ prog, b < 256)
+    (hz : ∀ a, S a → ZeroStorage w a)
+    (hob : cfg.balances = true → OracleSound o) (hch : CreateHyp cfg p S w)
+    (ce : CEnd) (hce : ce ∈ (runC s o cfg env codes this fuel).ends)
+    (htag : ce.e.tag = .normal) (h : Evm.Halt) (hout : ce.e.out = .halt h) (I : Interp) (hI : I.Std)
+    (hbal : cfg.balances = true → BalHyp I cfg w) (hsha : cfg.sha3 = true → ShaInterp I p cfg)
+    (f0 : Evm.Frame) (hR0 : R I env ((codeOf codes this).getD []) p initState f0) (hthis : f0.this = this)
+    (hd0 : f0.depth = 0) (hsat : Sat I ce.e.st.path) :
+    ∃ n w', Evm.exec p n w f0 = some (w', haltWith h (ce.e.data.map (·.eval I))) ∧
+        WRelM I S (wd w ce.created ce.nonce) w' (stoOf ce.stores) (evalLogs I ce.logs) (balSem I w ce.bal) := by
+  have hgood := exploreC_sound (o := o) (cfg := cfg) (codes := codes) (p := p) (w0 := w)
+    (S := S) (cs0 := initC env codes this)
+    (H := fun I => (cfg.balances = true → BalHyp I cfg w) ∧ (cfg.sha3 = true → ShaInterp I p cfg))
+    hs hmem hdep hcodes hSc hcb hob (fun _ h => h) hch fuel 0 [initC env codes this] {} (by
+      intro cs hm
+      rw [List.mem_singleton] at hm
+      subst hm; exact goodC_init)
+    (by intro e hm; cases hm)
+  obtain ⟨w', ⟨n, hn⟩, hW⟩ := hgood ce hce htag h hout I hI ⟨hbal, hsha⟩ f0 (relC_init hR0 hthis hd0 hcb hS0 hz) hsat
+  exact ⟨n, w', hn, hW⟩
+
+/-- **C01.sound_calls** (statement and commentary above; `hnc`: CREATE is not followed — it ends the path stuck).
+    `wd w ce.created ce.nonce` is `w` with the created accounts' code and the allocator counter of the path: with
+    CREATE off nothing is ever created, so this is the start world `w` as far as the model can tell; what the
+    relation says of storage, logs and balances does not depend on it. -/
 theorem sound_calls {s : Simp} (hs : SimpSound s) (o : Oracle) (cfg : Cfg) (env : Env)
     (codes : List (Nat × List Nat)) (this : Nat) (fuel : Nat) (p : Evm.Params) (w : Evm.World)
     (hmem : cfg.maxMem + 32 ≤ p.memLimit) (hdep : 1024 ≤ p.maxDepth)
@@ -369,17 +399,46 @@ theorem sound_calls {s : Simp} (hs : SimpSound s) (o : Oracle) (cfg : Cfg) (env 
     (f0 : Evm.Frame) (hR0 : R I env ((codeOf codes this).getD []) p initState f0) (hthis : f0.this = this)
     (hd0 : f0.depth = 0) (hsat : Sat I ce.e.st.path) :
     ∃ n w', Evm.exec p n w f0 = some (w', haltWith h (ce.e.data.map (·.eval I))) ∧
-        WRelM I (Modelled codes this) w w' (stoOf ce.stores) (evalLogs I ce.logs) (balSem I w ce.bal) := by
-  have hgood := exploreC_sound (o := o) (cfg := cfg) (codes := codes) (p := p) (w0 := w)
-    (S := Modelled codes this) (cs0 := initC env codes this)
-    (H := fun I => (cfg.balances = true → BalHyp I cfg w) ∧ (cfg.sha3 = true → ShaInterp I p cfg))
-    hs hmem hdep hcodes (fun _ _ h => modelled_of_code h) hcb hob (fun _ h => h) hnc fuel 0 [initC env codes this] {} (by
-      intro cs hm
-      rw [List.mem_singleton] at hm
-      subst hm; exact goodC_init)
-    (by intro e hm; cases hm)
-  obtain ⟨w', ⟨n, hn⟩, hW⟩ := hgood ce hce htag h hout I hI ⟨hbal, hsha⟩ f0 (relC_init hR0 hthis hd0 hcb hz) hsat
-  exact ⟨n, w', hn, hW⟩
+        WRelM I (Modelled codes this) (wd w ce.created ce.nonce) w' (stoOf ce.stores) (evalLogs I ce.logs)
+          (balSem I w ce.bal) :=
+  sound_calls_gen hs o cfg env codes this fuel p w (Modelled codes this) (Or.inl rfl)
+    (fun _ _ h => modelled_of_code h) hmem hdep hcodes hcb hz hob (CreateHyp.off hnc) ce hce htag h hout I hI hbal hsha
+    f0 hR0 hthis hd0 hsat
+
+/-- **C01.sound_calls_create_partial.** The same with CREATE followed (`cfg.create` on), PARTIAL in one respect: the
+    balances layer must be off (`hcv`), so a CREATE whose value is not the literal 0 ends the path stuck (no claim).
+    The modelled accounts now include the allocator's addresses (`ModelledC`), which must have no storage in the start
+    world like the others (`hz`). `hal`: the reference's allocator agrees with the code's `new_address()` — its `n`-th
+    address from the start world's counter on is `(allocBase + n) mod 2^160`; `hbw`: the start world's balances are
+    words. The conclusion's `WRelM … (wd w ce.created ce.nonce) w' …` contains the code clause for created accounts:
+    `w'.codeOf a` is the code the model installed (`ce.created`, newest first) and `w.codeOf a` elsewhere; and
+    `w'.created = w.created + ce.nonce` (one address per attempt, never rolled back). Covered: init code from concrete
+    memory bytes, the collision rule, the depth rule of the reference (through `hdep`), constructor frames (empty
+    calldata, fresh storage of the new account), code installation, failure with rollback of storage, logs and the
+    created accounts, EIP-211 return data, calls into created accounts, nested creates. Not covered: CREATE with a
+    value (needs the balances layer: stuck here), CREATE2, init code or constructor output with symbolic bytes (stuck). -/
+theorem sound_calls_create_partial {s : Simp} (hs : SimpSound s) (o : Oracle) (cfg : Cfg) (env : Env)
+    (codes : List (Nat × List Nat)) (this : Nat) (fuel : Nat) (p : Evm.Params) (w : Evm.World)
+    (hmem : cfg.maxMem + 32 ≤ p.memLimit) (hdep : 1024 ≤ p.maxDepth)
+    (hcodes : ∀ a, w.codeOf a = codeOf codes a)
+    (hcb : ∀ a prog, codeOf codes a = some prog → ∀ b ∈ prog, b < 256)
+    (hz : ∀ a, ModelledC cfg codes this a → ZeroStorage w a)
+    (hcv : cfg.create = true → cfg.balances = false)
+    (hal : cfg.create = true → ∀ n, p.newAddress (w.created + n) = (cfg.allocBase + n) % 2 ^ 160)
+    (hbw : cfg.create = true → ∀ a, w.balanceOf a < 2 ^ 256)
+    (ce : CEnd) (hce : ce ∈ (runC s o cfg env codes this fuel).ends)
+    (htag : ce.e.tag = .normal) (h : Evm.Halt) (hout : ce.e.out = .halt h) (I : Interp) (hI : I.Std)
+    (hsha : cfg.sha3 = true → ShaInterp I p cfg)
+    (f0 : Evm.Frame) (hR0 : R I env ((codeOf codes this).getD []) p initState f0) (hthis : f0.this = this)
+    (hd0 : f0.depth = 0) (hsat : Sat I ce.e.st.path) (hcr : cfg.create = true) :
+    ∃ n w', Evm.exec p n w f0 = some (w', haltWith h (ce.e.data.map (·.eval I))) ∧
+        WRelM I (ModelledC cfg codes this) (wd w ce.created ce.nonce) w' (stoOf ce.stores) (evalLogs I ce.logs)
+          (balSem I w ce.bal) :=
+  have hb : cfg.balances = false := hcv hcr
+  sound_calls_gen hs o cfg env codes this fuel p w (ModelledC cfg codes this) (Or.inl (Or.inl rfl))
+    (fun _ _ h => Or.inl (modelled_of_code h)) hmem hdep hcodes hcb hz (fun h' => by rw [hb] at h'; cases h')
+    (fun hc => ⟨hcv hc, hal hc, fun n => Or.inr ⟨hc, n, rfl⟩, hbw hc⟩) ce hce htag h hout I hI
+    (fun h' => by rw [hb] at h'; cases h') hsha f0 hR0 hthis hd0 hsat
 
 /-! non-vacuity: a caller and a callee -/
 
@@ -600,7 +659,7 @@ example :
       [(.halt (.success []), .normal,
         Evm.natToBytes 32 0x1000 ++ Evm.natToBytes 32 0xaaaa0002 ++ Evm.natToBytes 32 0xaaaa0002)] ∧
     (runC foldSimp exOracle { create := true } exEnv [(0x1000, crMain)] 0x1000 200).ends.map
-        (fun ce => codeOf ce.e.st.created 0xaaaa0002) = [some crRuntime] := by
+        (fun ce => codeOf ce.created 0xaaaa0002) = [some crRuntime] := by
   decide +kernel
 
 example :
